@@ -133,6 +133,20 @@ Definition reimport_relation_e (rl : Z -> rel) (startID : Z) (srt : list itri) (
 Definition reimport_extra (startID : Z) (srt : list itri) (extra : list Z) : list Z :=
   new_ids startID (last_run (-1) (-1) srt + 1) extra.
 
+(* ---- runTransform absent ----
+   runTransform is optional (absent = identity for every run).  The importer's run
+   loop has two arms: with runTransform it records {originalID, transform, backside,
+   hasNormals}; without it records {originalID, identity, B, hasNormals} where B is
+   `backside` (honours = true) or the constant false (honours = false; the code before
+   hooks/fix_C08_3.patch).  Flags: bit 0 = back side, bit 1 = hasNormals. *)
+Definition import_flags (honours present : bool) (fl : Z) : Z :=
+  if present || honours then fl else fl - fl mod 2.
+Definition import_xform (present : bool) (identity x : Z) : Z := if present then x else identity.
+
+(* the relation entry the import records for a run with attributes (orig, x, fl) *)
+Definition import_rel (honours present : bool) (identity : Z) (r : rel) : rel :=
+  mkRel (rOrig r) (import_xform present identity (rXform r)) (import_flags honours present (rFlags r)).
+
 (* per-triangle attributes compared by the round-trip statement *)
 Definition attrs (o : otri) : Z * Z * Z * Z := (oOrig o, oXform o, oFlags o, oFace o).
 
